@@ -93,10 +93,19 @@ package support
 //@   flag treeop
 //@   requires t != nil
 
+// MinTransferDist (property C10): the search starts from the largest possible distance p-1 (p = size of the light side
+// of the reference split), walks the whole bootstrap tree from its root, and can only lower it; a terminal reference
+// branch has distance 0
 //@ func support.MinTransferDist
 //@   flag treeop
 //@   requires refedge != nil && reftree != nil && boottree != nil
-//@   allocates []uint, [][]*tree.Node, []*tree.Edge
+//@   allocates []uint, [][]*tree.Node, []*tree.Edge, []int, []*tree.Node, iface
+//@   call support.minTransferDistRecur [walk_from_the_bootstrap_root_with_the_maximum_as_initial_minimum] a0 == reftree && a1 == ntips && a2 == boottree.root && a3 == nil && a4 == nil && a5 == refedge && a6 == p && dist == p - 1 && a10 == absent && !stop && a7 == ones && len(ones) == len(bootedges)
+// speciesToMoveRecursive appends the tips to add / remove to the two lists it is given (thin)
+//@ func support.speciesToMoveRecursive
+//@   flag noframe
+//@   requires cur != nil && speciestoadd != nil && speciestoremove != nil
+
 //@ func support.UpdateTaxaMoveArrays
 //@   requires ref != nil && mux != nil
 //@   assigns elems("float64"), cell(nb_branches_close), ghost(lock_Lock), ghost(lock_Unlock)
@@ -109,6 +118,9 @@ package support
 //@   requires edgechan != nil && bootedgeindex != nil && reftree != nil && boot.Tree != nil
 //@   recv edgechan [message_is_a_reference_branch] msg != nil
 //@   ensures [done_on_every_path] ghost(wg_done) == old(ghost(wg_done)) + 1
+//@   call (*tree.EdgeIndex).Value [only_inner_reference_branches_are_looked_up_in_the_index_of_this_bootstrap_tree] a0 == bootedgeindex && a1 == e && p > 1
+//@   call support.MinTransferDist [a_branch_absent_from_the_bootstrap_tree_gets_its_minimum_transfer_distance_to_that_tree] !ok && a0 == e && a1 == reftree && a2 == boot.Tree && a3 == len(tips) && a4 == bootedges && a5 == !(computeavgtaxa || computeperbranchtaxa)
+//@   call (*tree.Edge).IncrementSupport [a_branch_found_adds_zero_an_absent_one_adds_its_transfer_distance] a0 == e && ((ok && a1 == 0.0) || (!ok && a1 == real(dist)))
 //@   loop 1
 //@     invariant [locks_balanced] ghost(lock_Lock) - ghost(lock_Unlock) == lold(ghost(lock_Lock) - ghost(lock_Unlock))
 
